@@ -630,8 +630,14 @@ SeedCells(st, s) ==
 Adjoint(st, tot, h) ==     \* stored per cell of the owner's buffer
   LET b == st.H[h].buf IN [c \in 1..Len(st.mem[b]) |-> TGet(tot, st.pv[b][c])]
 
-ApplyBackward(st, s) ==
-  LET L == s.h lr == st.H[L] IN
+\* the releasing traversal of backward() (it also walks through constants) reaches an operation recorded before one of
+\* its inputs was cleared: with a pending F-C09-1 consumer this is where the traversal crosses into the mutated tensor's
+\* NEW graph and clears it (no staleness guard on this path) - the known finding becomes manifest
+CrossesMissed(st, n) ==
+  st.pend # {} /\ \E m \in UpAll(st, n) : st.N[m].cr /\ \E i \in 1..Len(st.N[m].par) : st.N[st.N[m].par[i]].clrAt > st.N[m].born
+ApplyBackward(st00, s) ==
+  LET L == s.h lr == st00.H[L]
+      st == [st00 EXCEPT !.kf = IF st00.track /\ CrossesMissed(st00, lr.node) THEN @ \cup {"F-C09-1"} ELSE @] IN
   IF ~st.track THEN st        \* backward() does nothing while tracking is off
   ELSE IF lr.const THEN ClearNodes(st, UpAll(st, lr.node))
   ELSE
